@@ -1428,7 +1428,8 @@ static int exec_line(char* line)
       BYTES copy;
       copy.n = imgs[im].n;
       copy.p = (uint8_t*) malloc(copy.n ? copy.n : 1);
-      memcpy(copy.p, imgs[im].p, copy.n);
+      if (copy.n)
+        memcpy(copy.p, imgs[im].p, copy.n);
       STRM s = {&copy, 0, (size_t) atol(tk[4]), 0};
       YR_STREAM st = {&s, strm_read, strm_write};
       API(rc = yr_rules_load_stream(&st, &nr));
